@@ -17,6 +17,10 @@ COMMON_TB = [
 ]
 
 PER_TB = {
+    "C14": ["modelled: benchtab Builder.Add / ToTables / summarizeCol / NonSingularFields at the level of projected measurements (keys abstract, their sort order taken from the real benchproc.SortKeys as ranks; per-sample statistics taken from direct calls of benchmath on the harness's own grouping; geomean checked by exact rational bounds)",
+            "cmd/benchstat/main.go's flag-to-projection wiring is replicated in the harness (40 lines) and tied to the real binary by byte-comparing its csv and text output with the in-process tables' rendering"],
+    "C15": ["same model as C14 (Corr/RunC14.v ties it to the code); runtime part observed on the real binary: repeated runs across GOMAXPROCS 1,2,3,16, a -race build, repeated in-process runs, permuted benchmark lines",
+            "Go's race detector (dynamic: only races on executed interleavings are seen)"],
     "C05": ["modelled: benchfmt.Name.{Parts,Base,splitGomaxprocs}, benchproc extract.go; observed through Name methods, single-field projections (Key.Get) and literal filters"],
 }
 
@@ -39,6 +43,8 @@ def trusted_base(pid):
 
 
 ASSUME = {
+    "C14": ["key sort order (benchproc.SortKeys) is a strict total order on distinct keys (C09)", "benchmath summaries/comparisons are functions of the sorted sample (C13)"],
+    "C15": ["sort orders are injective on distinct keys (C09)", "the race detector and the Go scheduler explore only some interleavings per run"],
     "C05": ["unicode-free: names are byte strings; no library behaviour is assumed"],
 }
 
@@ -47,11 +53,18 @@ def assumptions(pid):
     return ASSUME.get(pid, []) + ["the generated inputs are a sample: the correspondence between model and /repo is tested, the theorems are proved"]
 
 
-MODELLED_NOT_VERIFIED = {}
+MODELLED_NOT_VERIFIED = {
+    "C14": ["text/CSV rendering (C16)", "per-sample statistics (C11-C13)"],
+    "C15": ["sync.WaitGroup/channel semantics, memory model (runtime)"],
+}
 PROVED = {
+    "C14": "cells partition the measurements and each cell's sample is exactly its measurements once each (cell_sample_exact, cell_exists_iff); residue keys per cell exact; the vary-warning names exactly the differing residue fields (nonsingular_iff); rows/cols/tables are the present keys in sort order and the baseline is the first column (sorted_head_min); the benchmark-set warning is raised iff the row sets differ (set_warning_iff)",
+    "C15": "ToTables' result is independent of the enumeration order of the Go maps of tables and cells (tables_indep_of_map_order) for every state Add can reach (build_wf); sorted key sequences do not depend on the initial arrangement; permuting input measurements permutes each cell's values only (line_perm_cell_invariant); slot-disjoint tasks commute under every schedule (tasks_commute)",
     "C05": "all clauses: concatenation, shape and uniqueness of the decomposition, Base = Parts base, meaning of .name/.fullname//k//gomaxprocs/plain keys, fast path of the excluded full name",
 }
 TESTED_ONLY = {
+    "C14": "that centre/interval/delta/p/sample sizes equal what the unit's assumption yields (compared bit-for-bit with direct benchmath calls on the predicted samples); geomean values (exact rational 2^-30 relative bound); flag wiring of main.go (binary output compared byte-for-byte)",
+    "C15": "data-race freedom and real goroutine interleavings (race-detector runs, GOMAXPROCS sweep, repeated runs: byte-identical output); that the real tasks touch only their own slot",
     "C05": "that benchproc's projection/filter plumbing reaches these extractors (observed through Key.Get and Filter.Match)",
 }
 EXPLANATION = {}
